@@ -23,13 +23,14 @@ def sh(cmd, cwd, timeout=3600):
 def main():
     src, name = sys.argv[1], sys.argv[2]
     how = open(os.path.join(src, 'demo_how_to_run.txt')).read()
-    m1 = re.search(r'cp\s+\S*demo\.rs\s+(\S+)', how)
+    how = re.sub(r'\\\s*\n\s*', ' ', how)
+    m1 = re.search(r'cp\s+\S*demo\.rs\s+(\S+)', how) or re.search(r'(\S*[\w-]+/(?:tests|examples)/seed_demo_\d+\.rs)', how)
     m2 = re.search(r'cargo test\s+(-p\s+\S+)\s+--offline\s+(--test\s+\S+|--example\s+\S+|\S+)?', how) or re.search(r'cargo test[^\n]*(-p\s+\S+)[^\n]*?(--test\s+\S+)', how)
     if not m1 or not m2:
         print('cannot parse demo_how_to_run.txt; confirm by hand')
         return 2
     dest = m1.group(1)
-    dest = re.sub(r'^/tmp/seed_C\d+/', '', dest)
+    dest = re.sub(r'^/tmp/seed\d*_C\d+/', '', dest)
     dest = dest.replace('<checkout>/', '')
     testsel = m2.group(1) + ' ' + (m2.group(2) or '')
     wt = '/tmp/seedconfirm_wt'
